@@ -71,8 +71,8 @@ def run(ctx: core.Ctx) -> int:
     # DELEGATE: evaluated body of the Reading::sensor_model override, per calibration flag
     nd = 0
     for cal in (False, True):
-        ev = minieval.MiniEval({"ast_fragments": w.frag, "cpp": w.cpp}, aliases={"fragments": "ast_fragments"})
-        gen = witness.FakeGenerator(witness.Valuation(True, cal))
+        ev = w.evaluator()
+        gen = witness.FakeGenerator(witness.Valuation(True, cal), w)
         header = ev.call_named("cpp", "_header_body", generator=gen)
         found = []
 
